@@ -46,11 +46,11 @@ CHECKS = {
  "C15": dict(engine="lifecycle",
    text="seeded search over sequences and interleavings of Register/Unregister (of registered, unregistered and never-registered processors), Tracer/Meter/Logger creation, Start/End, Add, Emit, Collect, ForceFlush and Shutdown (repeated, concurrent, with background / cancelled / expiring contexts) on the three SDK providers with the stock processors, readers and exporters including nil exporters; oracle: may/must membership windows for span delivery, shutdown at most once ever and exactly once by the time Unregister / provider Shutdown returned nil, everything registered has been asked to shut down once a provider Shutdown has returned (also with an error), no-op tracers and nothing written by the stock exporters after Shutdown, no panic (including panics in SDK-spawned goroutines), no deadlock, no call that never returns",
    ref="DESIGN.md §3 C15",
-   note="stock exporters run for real (stdout exporters write to a stamped in-memory writer); known findings C15-K1/K2 are reported as KNOWN-FINDING"),
+   note="stock exporters run for real (stdout exporters write to a stamped in-memory writer); known findings C15-K1/K2 are reported as KNOWN-FINDING. A quarter of the workers run a race-detector build of the same engine in which the simulator's own synchronisation is hidden from the detector: a data race between two accesses of the code under test is reported as a violation (DESIGN.md §2.11)"),
  "C02": dict(engine="metricsim",
    text="seeded search over interleavings of Add/Record from several goroutines with Collect on a delta and a cumulative ManualReader, a PeriodicReader's interval exports, ForceFlush and the final Shutdown collection; every increment of an instrument is a distinct power of two, so each reported value names exactly the set of measurements it contains; oracle: each measurement in exactly one delta collection, within its may/must window, seen by every reader, cumulative never forgets, monotonic sums never decrease, flush/shutdown visibility",
    ref="DESIGN.md §3 C02",
-   note="sequentially consistent interleavings of instrumented sdk/metric code (statement granularity plus split read-modify-writes); the periodic reader's exporter is a stub; sampling, not enumeration"),
+   note="sequentially consistent interleavings of instrumented sdk/metric code (statement granularity plus split read-modify-writes); the periodic reader's exporter is a stub; sampling, not enumeration. A quarter of the workers run a race-detector build of the same engine in which the simulator's own synchronisation is hidden from the detector: a data race between two accesses of the code under test is reported as a violation (DESIGN.md §2.11)"),
  "C08": dict(engine="metricsim",
    text="same simulated histories as C02 with joint collection points (delta and cumulative reader collected back to back while no measurement is in flight, recorders still alive): cumulative sums / histogram count, sum, buckets, min, max equal the fold of all deltas so far; delta intervals adjacent and non-overlapping across zero and long simulated gaps, cumulative start fixed; asynchronous instruments report exactly the observed sets with delta = observed - previously observed while callbacks are registered and unregistered concurrently; gauges report the last value of the cycle",
    ref="DESIGN.md §3 C08",
@@ -66,11 +66,11 @@ CHECKS = {
  "C01": dict(engine="bsp",
    text="seeded search over schedules, time advances, configurations and exporter faults of the real batch span processor under a deterministic scheduler; history oracle for exactly-once, batch size, exporter exclusivity, flush visibility, drop accounting, export-after-shutdown and bounded liveness",
    ref="DESIGN.md §3 C01",
-   note="sequentially consistent interleavings of instrumented sdk/trace code; the exporter is a stub; sampling, not enumeration; known findings C01-K1/K2 (nil-returning Shutdown/ForceFlush overlapping an unfinished Shutdown) are reported as KNOWN-FINDING"),
+   note="sequentially consistent interleavings of instrumented sdk/trace code; the exporter is a stub; sampling, not enumeration; known findings C01-K1/K2 (nil-returning Shutdown/ForceFlush overlapping an unfinished Shutdown) are reported as KNOWN-FINDING. A quarter of the workers run a race-detector build of the same engine in which the simulator's own synchronisation is hidden from the detector: a data race between two accesses of the code under test is reported as a violation (DESIGN.md §2.11)"),
  "C06": dict(engine="logbatch",
    text="seeded search over schedules, time advances, queue/batch/buffer/interval/timeout configurations and exporter faults of the real log batch processor; history oracle for exactly-once, per-emitter order, batch size, Export exclusivity, flush visibility with overwrite accounting, record isolation from later mutation, export-after-shutdown and bounded liveness",
    ref="DESIGN.md §3 C06",
-   note="sequentially consistent interleavings of instrumented sdk/log code; the exporter is a stub; sampling, not enumeration; known findings C06-K1/K2 are reported as KNOWN-FINDING"),
+   note="sequentially consistent interleavings of instrumented sdk/log code; the exporter is a stub; sampling, not enumeration; known findings C06-K1/K2 are reported as KNOWN-FINDING. A quarter of the workers run a race-detector build of the same engine in which the simulator's own synchronisation is hidden from the detector: a data race between two accesses of the code under test is reported as a violation (DESIGN.md §2.11)"),
 }
 
 PENDING = []
@@ -88,7 +88,7 @@ m = {
  "engines": [{"name": n, "path": "engines/"+n, "serves_properties": p, "kind_free_text": "deterministic simulation: "+k} for n,(p,k) in ENGINES.items()],
  "checks": [],
  "not_applicable": [],
- "notes": "see DESIGN.md; ./check selftest-determinism and selftest/mutants.sh are the simulator's own self-tests; the race-detector builds of spanlin, globalsim and promsim are linked with -ldflags=-checklinkname=0 (they enter synctest bubbles through the runtime entry point, DESIGN.md §2.11)",
+ "notes": "see DESIGN.md; ./check selftest-determinism and selftest/mutants.sh are the simulator's own self-tests; the race-detector builds of bsp, logbatch, metricsim, spanlin, lifecycle, globalsim and promsim are linked with -ldflags=-checklinkname=0 (they enter synctest bubbles through the runtime entry point, DESIGN.md §2.11)",
 }
 for pid, c in sorted(CHECKS.items()):
     m["checks"].append({
